@@ -145,7 +145,23 @@ static std::string step(Pool &p, Rng &r)
     char d[200];
     d[0] = 0;
     va::LibScope ls;
-    switch (r.below(26)) {
+    switch (r.below(27)) {
+    case 26: {
+        // null text pointers mean empty text for every pointer overload (and for append with the defaulted size)
+        const unsigned form = static_cast<unsigned>(r.below(7));
+        switch (form) {
+        case 0: ss << static_cast<const char *>(nullptr); break;
+        case 1: ss << static_cast<const wchar_t *>(nullptr); break;
+        case 2: ss << static_cast<const char16_t *>(nullptr); break;
+        case 3: ss << static_cast<const char32_t *>(nullptr); break;
+        case 4: ss << static_cast<const char8_t *>(nullptr); break;
+        case 5: ss.append(nullptr); break;
+        default: ss.append(nullptr, 0); break;
+        }
+        snprintf(d, sizeof(d), "ss%zu<<null pointer form %u", i, form);
+        vrt::count("op.insert_null_pointer");
+        break;
+    }
     case 0: case 1: case 2: {
         size_t n = append_len(r, x.model.size());
         S data;
@@ -208,6 +224,8 @@ static std::string step(Pool &p, Rng &r)
         { va::HarnessScope hs; t = valid_text(r, r.chance(1, 4) ? 150 : 12); pre = valid_text(r, 3); post = "TAIL" + valid_text(r, 3); }
         const unsigned form = static_cast<unsigned>(r.below(15));
         bool cstr_form = form < 4;
+        // sized forms (STL strings, views, ST::string) carry U+0000 like any other character
+        if (!cstr_form && r.chance(1, 4)) { va::HarnessScope hs; for (size_t k = 1 + r.below(3); k-- > 0;) { size_t at = r.below(t.size() + 1); while (at < t.size() && (static_cast<unsigned char>(t[at]) & 0xC0) == 0x80) ++at; t.insert(at, 1, '\0'); } vrt::count("op.insert_text_with_U+0000"); }
         if (cstr_form) { va::HarnessScope hs; S c; for (char ch : t) if (ch) c += ch; t = c; }
         std::wstring w, wall; std::u16string u16, u16all; std::u32string u32, u32all; std::u8string u8, u8all; S sall;
         {
@@ -308,7 +326,9 @@ static std::string step(Pool &p, Rng &r)
         S a = got(true, ST::assume_valid, threw);
         if (threw || a != m) p.fail("to_string:assume_valid", sfmt("stream %zu", i));
         S b = got(true, ST::substitute_invalid, threw);
-        { va::HarnessScope hs; if (threw || b != ref::cleanup_utf8(m)) p.fail("to_string:substitute_invalid", sfmt("stream %zu", i)); }
+        { va::HarnessScope hs; const S w = ref::cleanup_utf8(m); if (threw || b != w) { size_t k = 0; while (k < b.size() && k < w.size() && b[k] == w[k]) ++k;
+            p.fail("to_string:substitute_invalid", sfmt("stream %zu threw=%d got %zu bytes, want %zu; first difference at %zu: got %s want %s", i, threw, b.size(), w.size(), k,
+                                                         vrt::hex(b.data() + k, std::min<size_t>(12, b.size() - k)).c_str(), vrt::hex(w.data() + (k > 4 ? k - 4 : 0), std::min<size_t>(16, w.size() - (k > 4 ? k - 4 : 0))).c_str())); } }
         S c = got(true, ST::check_validity, threw);
         if (valid ? (threw || c != m) : !threw) p.fail("to_string:check_validity", sfmt("stream %zu valid=%d threw=%d", i, valid, threw));
         S l = got(false, ST::assume_valid, threw);
@@ -330,6 +350,8 @@ static void body()
     vrt::require("op.insert_integer", 2000);
     vrt::require("op.truncate", 2000);
     vrt::require("op.erase", 1000);
+    vrt::require("op.insert_null_pointer", 500);
+    vrt::require("op.insert_text_with_U+0000", 500);
     vrt::require("op.move_assign.heap<-heap", 200);
     vrt::require("op.move_assign.heap<-obj", 200);
     vrt::require("op.move_assign.obj<-heap", 200);
@@ -342,7 +364,7 @@ static void body()
     vrt::require("growth.crossed_1024", 500);
     vrt::require("moved_from.appended_to", 500);
     const size_t steps = vrt::thorough() ? 120 : 60;
-    vrt::phase("histories", vrt::tier_count(5000, 200000), [&](uint64_t, Rng &r) {
+    vrt::phase("histories", vrt::tier_count(40000, 300000), [&](uint64_t, Rng &r) {
         {
             Pool p;
             bool moved[Pool::N] = {};
